@@ -22,7 +22,7 @@
 (***************************************************************************)
 EXTENDS ValuesProps, Json
 
-CONSTANTS Family,   \* "cli" | "mdoc" | "pair" | "deep" | "sub2" | "deepsub" | "sub3" | "flags" | "set"
+CONSTANTS Family,   \* "repeat" | "cli" | "mdoc" | "pair" | "deep" | "sub2" | "deepsub" | "sub3" | "flags" | "set"
           Full,     \* TRUE: leaves {scalar, null, list} at both depths; FALSE: lists only at depth 1
           SetPairs, \* TRUE: also --set expressions with two assignments
           Term      \* TRUE only in simulation configurations (see Next)
@@ -133,12 +133,17 @@ PathsOf ==
 
 \* scalar literals as chunk sequences, lists of them
 Scalars == << <<"x">>, <<"1">>, <<"0">>, <<"007">>, <<"true">>, <<"False">>, <<"null">>, <<>>, <<"x", EscComma, "y">>,
-              <<"-3">>, <<"1.5">>, <<"a", EscDot, "b">> >>
+              <<"-3">>, <<"1.5">>, <<"a", EscDot, "b">>,
+              \* not integers by the documented rule (decimal digits with an optional sign, no leading zero):
+              \* digit-group underscores, signed 0x / 0o / 0b literals, exponents
+              <<"1_000">>, <<"2024_01">>, <<"-0x10">>, <<"+0b11">>, <<"-0o17">>, <<"1e3">> >>
 ValsOf ==
   {[toks |-> Scalars[n], val |-> DocTyped(TxtOf(Scalars[n]))] : n \in DOMAIN Scalars}
   \cup {[toks |-> <<"{">> \o Scalars[n] \o <<"}">>, val |-> Li(<<DocTyped(TxtOf(Scalars[n]))>>)] : n \in {1, 7}}
   \cup {[toks |-> <<"{">> \o Scalars[n] \o <<",">> \o Scalars[m] \o <<"}">>,
          val |-> Li(<<DocTyped(TxtOf(Scalars[n])), DocTyped(TxtOf(Scalars[m]))>>)] : n \in {1, 2}, m \in {5, 9}}
+  \cup {[toks |-> <<"{">> \o Scalars[13] \o <<",">> \o Scalars[15] \o <<"}">>,
+         val |-> Li(<<DocTyped(TxtOf(Scalars[13])), DocTyped(TxtOf(Scalars[15]))>>)]}
 
 Asg1 == {[toks |-> p.toks \o <<"=">> \o v.toks, asgs |-> <<[path |-> p.path, val |-> v.val]>>] : p \in PathsOf, v \in ValsOf}
 \* second assignments (a smaller set) appended after a comma
@@ -197,6 +202,16 @@ CliOpts(fam) ==
 CliFile == << <<>>, [x \in {"a", "port"} |-> IF x = "a" THEN Mp([y \in AB |-> Sc("s:f1")]) ELSE Sc("i:80")] >>
 CliD    == [x \in {"a"} |-> Mp([y \in AB |-> Sc("i:1")])]
 
+(* ----- family: repeat (the same -f file / the same --set expression given more than once) ----- *)
+\* a later occurrence overrides what came in between, exactly as a different file with the same
+\* content would; order: indexes into <<f1, f2>>
+RepF1 == SetToSeq(MapsOver(A, WF("s:f1")))
+RepF2 == SetToSeq(MapsOver(A, WF("s:f2")))
+RepOrder == << <<1, 2, 1>>, <<2, 1, 2>>, <<1, 2, 1, 2>>, <<1, 1, 2>> >>
+RepSet == << NoCli,
+             [texts |-> <<"b=1", "b=2", "b=1">>, srcs |-> <<Asg(<<"b">>, Sc("i:1")), Asg(<<"b">>, Sc("i:2")), Asg(<<"b">>, Sc("i:1"))>>] >>
+RepD == << <<>>, [x \in {"a"} |-> Mp([y \in AB |-> Sc("i:1")])] >>
+
 (* ----- stages ----------------------------------------------------------- *)
 StageSets ==
   CASE Family = "pair"  -> <<PairD, PairF>>
@@ -204,6 +219,7 @@ StageSets ==
     [] Family = "sub2"  -> <<SubOwn, SubSecA, SubUser>>
     [] Family = "deepsub" -> <<DeepOwn, DeepSec, DeepSubUser>>
     [] Family = "mdoc"  -> <<MWhere, MOther, MDoc1, MDoc2>>
+    [] Family = "repeat" -> <<RepD, RepSet, RepOrder, RepF1, RepF2>>
     [] Family = "cli"   -> <<CliFile, CliOpts("json"), CliOpts("set"), CliOpts("str"), CliOpts("file"), CliOpts("lit")>>
     [] Family = "sub3"  -> <<SubOwn, SubSecA, SubSecB, SubUser>>
     [] Family = "flags" -> <<FlagD, FlagF1, FlagF2, Opts("json"), Opts("set"), Opts("str"),
@@ -225,6 +241,11 @@ CaseOf(p) ==
          [charts |-> <<[name |-> "root", vals |-> Under("s1", ch(2))], [name |-> "s1", vals |-> ch(1)]>>,
           files |-> <<Under("s1", ch(3))>>, flags |-> NoFlags,
           usr |-> <<[p |-> <<>>, v |-> Mp(Under("s1", ch(3))), obj |-> TRUE]>>]
+    [] Family = "repeat" ->
+         LET fs == <<ch(4), ch(5)>> IN
+         [charts |-> <<[name |-> "root", vals |-> ch(1)]>>, files |-> fs, fileorder |-> ch(3),
+          flags |-> [NoFlags EXCEPT !["set"] = ch(2).texts],
+          usr |-> [i \in DOMAIN ch(3) |-> [p |-> <<>>, v |-> Mp(fs[ch(3)[i]]), obj |-> TRUE]] \o ch(2).srcs]
     [] Family = "cli" ->
          [charts |-> <<[name |-> "root", vals |-> CliD]>>, files |-> <<ch(1)>>,
           flags |-> [f \in DOMAIN NoFlags |->
@@ -330,6 +351,7 @@ CaseJ(p) ==
   [id |-> CaseId(p), fam |-> Family, charts |-> ChartsJ(c),
    files |-> [i \in DOMAIN c.files |-> Mp(c.files[i])], flags |-> c.flags,
    filedocs |-> IF "filedocs" \in DOMAIN c THEN c.filedocs ELSE <<>>,
+   fileorder |-> IF "fileorder" \in DOMAIN c THEN c.fileorder ELSE [i \in DOMAIN c.files |-> i],
    usr |-> c.usr, asgs |-> IF Family = "set" THEN c.expr.asgs ELSE <<>>,
    exp |-> IF Family = "set" THEN SetExpected(c.files[1], c.expr)
            ELSE [conflict |-> RefusalAllowedUser(c), v |-> <<>>],
